@@ -340,6 +340,10 @@ impl MsWorld {
         for (i, u) in s.users.iter().enumerate() {
             line += &format!(" u{}={}", i + 1, show_nmap(&u.dy));
         }
+        // the harness's own ledger of the LP-farm amount released so far per dual-yield nonce (the property's part formula,
+        // checked on every claim / unstake against the decrease of the proxy's real LP-farm holding); ALL nonces (also the
+        // fully burned ones), zero entries dropped, ascending; the model driver prints its ghost `rel` in the same format
+        line += &format!(" led=rel:{}", show_nmap(&self.released));
         line
     }
 
